@@ -26,14 +26,13 @@ def main() -> int:
     try:
         mod = importlib.import_module(f'props.{pid.lower()}')
         from tools_bridge import regen
-        regen_report = regen()
         try:
             import py2lean
             ties = py2lean.tie_modules(pid)
         except ImportError:
             ties = []
-        proof = core.prove(pid, mod.REQUIRED, a.tier, list(getattr(mod, 'EXTRA_MODULES', None) or []) + ties)
-        proof['regen'] = regen_report
+        proof = core.prove(pid, mod.REQUIRED, a.tier, list(getattr(mod, 'EXTRA_MODULES', None) or []) + ties, regen=regen)
+        regen_report = proof.get('regen', {})
         core.use_repo_sources()
         if a.replay:
             payload = json.loads(pathlib.Path(a.replay).read_text())
